@@ -41,6 +41,8 @@ struct Case {
     /// peer `n_peers` lies consistently about the filters of the blocks `from..` (hashes and
     /// filters from a doctored chain, honest check points)
     liar_from: Option<u64>,
+    /// how many of the last peers lie (1 if `liar_from` is set and this is 0)
+    n_liars: usize,
     rng_seed: u64,
 }
 
@@ -55,7 +57,9 @@ fn new_sim(env: &Env, case: &Case, old: Option<Sim>) -> Sim {
         world.add_peer(p, 0, case.chain.tip_number());
     }
     if case.liar_from.is_some() {
-        world.peer_mut(case.n_peers).filter_chain = Some(1);
+        for p in (case.n_peers + 1 - case.n_liars.max(1))..=case.n_peers {
+            world.peer_mut(p).filter_chain = Some(1);
+        }
     }
     world.filter_batch = case.batch;
     world.hashes_batch = case.hashes_batch;
@@ -356,6 +360,7 @@ pub(crate) fn run(opts: &Opts, report: &mut Report) {
             max_outbound,
             n_peers: if max_outbound >= 3 { 3 } else { 2 },
             liar_from: None,
+            n_liars: 0,
             rng_seed: 0,
         };
         // honest reference run: how many BlockFilters messages, and it must be clean
@@ -529,18 +534,23 @@ pub(crate) fn run(opts: &Opts, report: &mut Report) {
         // fake filters (empty from block `from` on) and a hash chain over them, honest check points
         if target == "BlockFilterHashes" && slice == 0 {
             let tip = case.chain.tip_number();
+            // (liars, max_outbound): one liar against a quorum of 2 that the two honest peers
+            // reach; two liars against one honest peer with a quorum of 3 that nobody reaches
+            // (then nothing beyond the finalized check point may be acted on at all)
+            for (n_liars, outbound) in [(1usize, 3u32), (2, 5)] {
             for from in (1..=tip).filter(|n| thorough || [1u64, 2, 4, 5, 7, 9].contains(n)) {
                 for seed in 0..(if thorough { 6u64 } else { 3 }) {
                     let liar_case = Case {
-                        name: format!("{}/liar-from-{}/seed{}", case.name, from, seed),
+                        name: format!("{}/{}-liar-from-{}/quorum{}/seed{}", case.name, n_liars, from, (outbound + 1) / 2, seed),
                         chain: case.chain.clone(),
                         fork: case.fork.clone(),
                         regs: case.regs.clone(),
                         batch: case.batch,
                         hashes_batch: case.hashes_batch,
-                        max_outbound: 3,
+                        max_outbound: outbound,
                         n_peers: 3,
                         liar_from: Some(from),
+                        n_liars,
                         rng_seed: seed,
                     };
                     runs += 1;
@@ -560,7 +570,7 @@ pub(crate) fn run(opts: &Opts, report: &mut Report) {
                                 if sim.world.peer(p).connected {
                                     sim.disconnect(p);
                                     any = true;
-                                    if p != 3 {
+                                    if p <= 3 - n_liars {
                                         imm.push(("honest-peer-banned-by-consistent-liar".to_owned(), format!("honest peer {} banned: {}", p, reason)));
                                     }
                                 }
@@ -576,32 +586,39 @@ pub(crate) fn run(opts: &Opts, report: &mut Report) {
                         Ok((imm, converged)) => {
                             // both honest peers have to be proven for the quorum of 2 (an honest
                             // peer stuck in its first proof round is C05's subject)
-                            let proven_honest = (1..=2usize)
+                            let proven_honest = (1..=(3 - n_liars))
                                 .filter(|p| sim.c().peers.get_state(&ckb_network::PeerIndex::new(*p)).and_then(|s| s.get_prove_state().cloned()).is_some())
                                 .count();
-                            if proven_honest < 2 {
+                            if proven_honest < 3 - n_liars {
                                 not_judged += 1;
                                 old = Some(sim);
                                 continue;
                             }
                             bad.extend(imm);
-                            if !converged {
-                                bad.push(("stall".into(), "no quiescence with two honest peers and one lying filter server".into()));
+                            if n_liars == 1 {
+                                if !converged {
+                                    bad.push(("stall".into(), "no quiescence with two honest peers and one lying filter server".into()));
+                                }
+                                let tip_ok = sim.c().tip_number() == case.chain.tip_number();
+                                bad.extend(oracle::judge_index(sim.c(), &case.chain, &case.regs, converged && tip_ok));
+                            } else {
+                                // the quorum is out of reach: no progress is owed, but whatever
+                                // height the scripts report must not hide activity
+                                bad.extend(oracle::judge_index(sim.c(), &case.chain, &case.regs, false).into_iter().filter(|(k, _)| k != "not-caught-up"));
                             }
-                            let tip_ok = sim.c().tip_number() == case.chain.tip_number();
-                            bad.extend(oracle::judge_index(sim.c(), &case.chain, &case.regs, converged && tip_ok));
                             bad.extend(oracle::judge_store(&sim, &case.chain));
                         }
                     }
                     for (oc, v) in oracle::group(bad) {
                         report.violation(
                             format!("{}/consistent-liar", oc),
-                            format!("[{}] peer 3 serves empty filters and a matching hash chain from block {} on (honest check points), peers 1 and 2 are honest, quorum 2: {}", liar_case.name, from, v[0]),
+                            format!("[{}] the last {} of 3 peers serve empty filters and a matching hash chain from block {} on (honest check points), quorum {}: {}", liar_case.name, n_liars, from, (outbound + 1) / 2, v[0]),
                             json!({"case": liar_case.name, "liar_from": from, "rng_seed": seed, "all": v.iter().take(6).collect::<Vec<_>>()}),
                         );
                     }
                     old = Some(sim);
                 }
+            }
             }
         }
         report.count("runs", runs);
@@ -651,6 +668,7 @@ pub(crate) fn debug_case() {
         max_outbound: out,
         n_peers: if out >= 3 { 3 } else { 2 },
         liar_from: liar,
+        n_liars: getn("C06_LIARS", 1) as usize,
         rng_seed: getn("C06_SEED", 0),
     };
     let want_class = std::env::var("C06_CLASS").unwrap_or("drop-one-filter-and-hash".into());
